@@ -32,6 +32,7 @@ type vfC03Case struct {
 	Specs    []*cargen.EpochSpec
 	Seed     uint64
 	Unloaded *cargen.EpochSpec // an epoch that is built but not loaded
+	HTTPCar  bool              // the CAR files are read through the remote ReaderAt path (loopback HTTP) instead of local files
 }
 
 // vfIdxProbe knows which 24-bit hashes are occupied in every bucket of a compact index.
@@ -104,7 +105,9 @@ func vfIsNotFoundJSON(resp *vfRPCResponse) (bool, string) {
 }
 
 func vfC03eval(c *vfC03Case, st map[string]int) error {
+	vfLoadCarOverHTTP = c.HTTPCar
 	l, err := vfLoadEpochs(c.Specs, true, &Options{EpochSearchConcurrency: 2})
+	vfLoadCarOverHTTP = false
 	defer l.Close()
 	if err != nil {
 		return err
@@ -400,7 +403,7 @@ func TestVfC03(t *testing.T) {
 	run := vfh.Begin("C03", "absent-keys")
 	defer run.End(t)
 	vfArmWatch(run, "C03")
-	run.Require("skipped-slot", "colliding-slot", "colliding-signature", "colliding-cid", "colliding-cid-concurrent", "codec-twin-cid", "single-epoch", "multi-epoch", "unloaded-epoch")
+	run.Require("skipped-slot", "colliding-slot", "colliding-signature", "colliding-cid", "colliding-cid-concurrent", "codec-twin-cid", "car-via-remote-readerat", "car-local-file", "single-epoch", "multi-epoch", "unloaded-epoch")
 	addrKnown := vfh.KnownOpen("C03", "absent-address-colliding-in-pubkey-index")
 	reproduced := 0
 	if addrKnown {
@@ -442,12 +445,18 @@ func TestVfC03(t *testing.T) {
 			c.Specs = append(c.Specs, s)
 		}
 		c.Unloaded = cargen.Gen(rt, opts)
+		c.HTTPCar = rapid.IntRange(0, 2).Draw(rt, "httpCar") == 0
 		run.SetLast(c)
 		st := map[string]int{}
 		err, panicked := vfh.Catch(func() error { return vfC03eval(c, st) })
 		var cls []string
 		for k := range st {
 			cls = append(cls, k)
+		}
+		if c.HTTPCar {
+			cls = append(cls, "car-via-remote-readerat")
+		} else {
+			cls = append(cls, "car-local-file")
 		}
 		if len(c.Specs) == 1 {
 			cls = append(cls, "single-epoch")
